@@ -20,11 +20,15 @@ GENERATED = ["Monitor.lean"]
 
 
 def gen_case(rng):
-    level = rng.choice(["unit", "unit", "udp", "tcp", "tcpsrv", "dtlssrv"])
-    stream = level in ("tcp", "tcpsrv")
+    level = rng.choice(["unit", "unit", "udp", "tcp", "tcpsrv", "dtlssrv", "tcpsrvdef", "dtlssrvdef"])
+    stream = level in ("tcp", "tcpsrv", "tcpsrvdef")
     can_fail = level in ("unit", "udp")
     period = rng.choice([100, 1000, 1_000_000, 16_000_000_000 // 3])
     n = rng.choice(["-", "0", "1", "2", "3"])
+    if level == "tcpsrvdef":      # the stream server's DefaultConfig: keep-alive, 2 retries over 16 s
+        period, n = 16_000_000_000 // 3, "2"
+    elif level == "dtlssrvdef":   # the DTLS server's DefaultConfig: plain monitor, 16 s
+        period, n = 16_000_000_000, "-"
     lines = ["cfg %s %d %s 0" % (level, period, n)]
     t = 0
     pings = 0
